@@ -73,7 +73,7 @@ def run_case(ctx, g, rng):
     else:
         c, how = gen.build(api, recs, d, rng)
     # strings registered on the *original* of a copied converter after the copy was taken (gen._circumstance): ghosts too
-    ghost_u, ghost_p = [gen.ORIG_URI], ([gen.ORIG_PREFIX] if d not in gen.ORIG_PREFIX else [])
+    ghost_u, ghost_p = list(gen.SPECIAL_URIS), list(gen.SPECIAL_PREFIXES)
     if g % 3 != 0 and recs:
         # registrations that must be rejected (clash in a late field); afterwards their strings are ghosts that
         # must neither compress nor expand - asked through the same round-trip relations below
